@@ -23,4 +23,9 @@ var specs = []*spec{
 		Technique: "deterministic simulation with crash/restart injection: abandon the instance at any event, reload any durable checkpoint cut of the last action through ReadState, fresh runner; no-redo/rerun/nothing-lost/outcome oracles",
 		LevelText: "Seeded exploration with up to three crash/restarts per run at arbitrary events; the surviving checkpoint is any cut inside the last action (never below what was already durable); in-flight handlers may have applied their effect. Oracles: finished tasks never run again, running ones do, ids/changes/tasks preserved, change settles, outcome equals the crash-free outcome where that is schedule independent.",
 		LevelNote: noteSampling + " Task work is idempotent by construction of the simulated handlers (as the property assumes).", DesignRef: "3 Engine A / C04"},
+	{Prop: "C05", Engine: "state", Pkg: "overlord/state", Level: "exploration", QuickS: 30, ThoroS: 420, EngineText: engAText,
+		RuleText:  "Each evaluation is one generated history of state API operations (changes, tasks, edges, lanes, statuses incl. Wait, logs, data, schedules, progress, notices with options, warnings, prune, clock steps up to 5 h) with 1-3 save/reload cycles; after each reload every public accessor is compared with the pre-save observation and fresh change/task/lane/notice ids are drawn and compared with every id ever handed out. Every run reloads at least once, so every run is non-trivial; distinctness is by event-log fingerprint.",
+		Technique: "deterministic simulation: generated state histories on a simulated clock, save -> ReadState round trip compared accessor by accessor, id-freshness ledger across reloads",
+		LevelText: "Seeded exploration of API histories with repeated reloads; the comparison covers changes, tasks, statuses, waited status, edges, lanes, data, logs, progress, at-time, spawn/ready/doing/undoing times, clean flags, notices, warnings; ids are tracked across all reloads of a run including ids of pruned objects.",
+		LevelNote: noteSampling + " Histories apply statuses directly (restricted to what the engine can produce: a ready change never goes back); runner-produced histories are reloaded by C04's restarts.", DesignRef: "3 Engine A / C05"},
 }
